@@ -550,6 +550,38 @@ func runC18(w *World, r *Report) {
 		}
 	}
 
+	r.Rule("C18.handlers-leave-messages-alone", "the state handlers and branch conditions NewAgent installs write nothing through the messages they are handed: the assistant message the model returned is the one that is executed AND the one recorded in the history — rewriting it in place (arguments 'normalised', ids filled in) makes the next model call see a message the model never produced", 2)
+	{
+		n := 0
+		for _, lit := range withAnons(newAgent) {
+			if lit == newAgent {
+				continue
+			}
+			names := map[string]bool{}
+			for _, p := range lit.Params {
+				t := p.Type()
+				if sl, ok := t.Underlying().(*types.Slice); ok {
+					t = sl.Elem()
+				}
+				if pt, ok := t.(*types.Pointer); ok {
+					if nm := namedOf(pt.Elem()); nm != nil && nm.Obj().Name() == "Message" {
+						names[p.Name()] = true
+					}
+				}
+			}
+			if len(names) == 0 {
+				continue
+			}
+			n++
+			ruleNoMutateParams(w, r, "C18.handlers-leave-messages-alone", lit, names)
+		}
+		if n < 2 {
+			undecidedf("C18.handlers-leave-messages-alone: only %d message-taking literals in NewAgent", n)
+		}
+	}
+
+	shareRule(w, r, "C18.tool-frames-keep-their-call", "the per-call converter of the tools node's stream form writes no variable captured from the call (the call id heads EVERY frame): the return-directly node filters the tools stream frame by frame on the id", 5, "C09", "C09.capture-write")
+
 	// ---- the default stream tool-call checker: an empty leading chunk decides nothing
 	r.Rule("C18.default-checker", "the default stream checkers answer 'no tool call' only at end of stream or on a chunk with content; 'tool call' only on a chunk with tool calls", 4)
 	{
